@@ -153,7 +153,7 @@ static void real_prepare(void) {
 	lzma_lzma_preset(&ropt, 0); ropt.dict_size = 4096;
 	rchain[0] = (lzma_filter){ LZMA_FILTER_LZMA2, &ropt }; rchain[1].id = LZMA_VLI_UNKNOWN;
 	rchain_d[0] = (lzma_filter){ LZMA_FILTER_DELTA, &rdelta }; rchain_d[1] = rchain[0]; rchain_d[2].id = LZMA_VLI_UNKNOWN;
-	lzma_easy_buffer_encode(0, LZMA_CHECK_CRC32, NULL, PLAIN, 12, valid_xz, &n_xz, sizeof valid_xz);
+	{ lzma_stream s = LZMA_STREAM_INIT; lzma_easy_encoder(&s, 0, LZMA_CHECK_CRC32); s.next_in = PLAIN; s.avail_in = 5; s.next_out = valid_xz; s.avail_out = sizeof valid_xz; lzma_code(&s, LZMA_FULL_FLUSH); s.avail_in = 7; lzma_code(&s, LZMA_FINISH); n_xz = s.total_out; lzma_end(&s); }	// two Blocks (5 + 7 bytes): a Block boundary can fall inside one call
 	{ lzma_stream s = LZMA_STREAM_INIT; lzma_alone_encoder(&s, &ropt); s.next_in = PLAIN; s.avail_in = 12; s.next_out = valid_lzma; s.avail_out = sizeof valid_lzma; lzma_code(&s, LZMA_FINISH); n_lzma = s.total_out; lzma_end(&s); }
 	lzma_raw_buffer_encode(rchain, NULL, PLAIN, 12, valid_raw, &n_raw, sizeof valid_raw);
 	{ static const uint8_t lz[] = { 0x4C,0x5A,0x49,0x50,0x01,0x0C,0x00,0x30,0x98,0x88,0x98,0x46,0x7E,0x1E,0xB2,0xFF,0xFA,0x1C,0x80,0x00,0xD7,0x2D,0x05,0x85,0x0C,0x00,0x00,0x00,0x00,0x00,0x00,0x00,0x28,0x00,0x00,0x00,0x00,0x00,0x00,0x00 };
@@ -200,7 +200,7 @@ static lzma_ret shim_code(void *c, const lzma_allocator *a, const uint8_t *restr
 	size_t i0 = *in_pos, o0 = *out_pos; rec_called = 1; if (!((rec_sup >> action) & 1)) rec_bad_action = 1;
 	rec_ret = real_code(c, a, in, in_pos, in_size, out, out_pos, out_size, action); rec_ci = *in_pos - i0; rec_co = *out_pos - o0; return rec_ret;
 }
-typedef struct { int action, ain, aout; } rstep;	// ain: 0 none, 1 one byte, 2 all remaining;  aout: 0, 1, 2 = plenty
+typedef struct { int action, ain, aout; } rstep;	// ain: 0 none, 1 one byte, 2 all remaining;  aout: 0, 1, 2 = plenty, 3 = six bytes (two-Block payloads only)
 static long real_paths, real_steps; static h_set real_obs;
 static void run_real(int k, int invalid, const rstep *p, int n) {
 	lzma_stream s = LZMA_STREAM_INIT; const uint8_t *pay; fill_canaries(); size_t plen = real_payload(k, invalid, &pay);
@@ -210,7 +210,7 @@ static void run_real(int k, int invalid, const rstep *p, int n) {
 	real_code = s.internal->next.code; s.internal->next.code = &shim_code; rec_sup = RKSUP[k]; rec_bad_action = 0;
 	mstate m = { PH_RUN, 0, 0 }; size_t ipos = 0, opos = 0; uint64_t tin = 0, tout = 0; char hist[400]; char *hq = hist; *hq = 0; uint64_t ok = 0;
 	for (int i = 0; i < n; i++) { const rstep *st = &p[i]; real_steps++;
-		size_t ain = st->ain == 0 ? 0 : st->ain == 1 ? (plen - ipos ? 1 : 0) : plen - ipos, aout = st->aout == 0 ? 0 : st->aout == 1 ? 1 : 4096;
+		size_t ain = st->ain == 0 ? 0 : st->ain == 1 ? (plen - ipos ? 1 : 0) : plen - ipos, aout = st->aout == 0 ? 0 : st->aout == 1 ? 1 : st->aout == 3 ? 6 : 4096;	/* 6: the first Block (5 bytes) ends inside the window and the second starts in the same call */
 		if (opos + aout > 8192) aout = 8192 - opos;
 		s.next_in = inbuf + CAN + ipos; s.avail_in = ain; s.next_out = outbuf + CAN + opos; s.avail_out = aout; rec_called = 0; rec_ci = rec_co = 0; rec_ret = LZMA_OK;
 		hq += snprintf(hq, sizeof hist - (hq - hist) - 1, "%s(act=%d,in=%zu,out=%zu)", i ? " " : "", st->action, ain, aout);
@@ -240,7 +240,7 @@ static void real_rec(int k, int invalid, rstep *p, int d, int D, const int *acts
 	if (d == 1 && (r_idx++ % r_nsh) != r_shard) return;	// shard on the first step of every (coder, payload) pair
 	if (d != 0 || r_shard == 0) run_real(k, invalid, p, d);
 	if (d == D || h_expired()) return;
-	for (int a = 0; a < nacts; a++) for (int i = 0; i < 3; i++) for (int o = 0; o < 3; o++) { p[d] = (rstep){ acts[a], i, o }; real_rec(k, invalid, p, d + 1, D, acts, nacts); }
+	for (int a = 0; a < nacts; a++) for (int i = 0; i < 3; i++) for (int o = 0; o < ((k == RK_STREAM_DEC || k == RK_AUTO_DEC) && !invalid ? 4 : 3); o++) { p[d] = (rstep){ acts[a], i, o }; real_rec(k, invalid, p, d + 1, D, acts, nacts); }
 }
 
 // ---- (c) (re)initialisation orders, use before init / after end -------------------------------------
